@@ -248,6 +248,15 @@ func body04(s scn, f fault, probe bool) Body {
 			fa.n = f.k
 		case "exc", "cancelexc":
 			inj = &Inject{G: f.k, Stop: true, Bytes: c.W.Exception(excReadonly)}
+		case "excdeep":
+			// a well-formed exception whose chain of causes is long (130 entries): the client may
+			// stay open only if it has read all of it
+			chain := make([]refwire.Exception, 130)
+			for i := range chain {
+				chain[i] = excReadonly
+				chain[i].Code = int32(261 + i%3) // first bytes 0x05.. : what a reader out of step would take for packet codes
+			}
+			inj = &Inject{G: f.k, Stop: true, Bytes: c.W.Exception(chain...)}
 		case "wfailexc":
 			// two faults: the client's write fails after byte arg and the server sends an exception
 			c.C.FailWriteAt = c.HsLen + f.arg
@@ -417,6 +426,9 @@ func C04(c *vk.Ctx) {
 				jobs = append(jobs, job{s, fault{kind: "exc", k: g}, 2, true})
 			default:
 				jobs = append(jobs, job{s, fault{kind: "exc", k: g}, 1, false})
+			}
+			if core {
+				jobs = append(jobs, job{s, fault{kind: "excdeep", k: g}, 0, false})
 			}
 		}
 		stride := 1
